@@ -330,6 +330,26 @@ def gen_cases(chk, quick):
             for disp in (False, True):
                 cases.append({"stream": key + "-deletion-shapes", "gene": key, "display": disp,
                               "alleles": [rand_allele(rng, gi, m) for m in majors]})
+    # tandem rules next to novel functional variants, printed with display_format: the printed name of such a copy is '(36 ^...)';
+    # the pairing must still go by the allele, not by what is printed
+    for key in GENES:
+        gi = load_gene(key)
+        if not gi.tandems or not gi.func:
+            continue
+        for (ta, tb) in gi.tandems[:3]:
+            heads = [m for m in gi.majors if real_key(m) == ta]
+            tails = [m for m in gi.majors if real_key(m) == tb]
+            if not heads or not tails:
+                continue
+            for extra_n in (1, 2):
+                majors = [rng.choice(heads), rng.choice(tails)] + [rng.choice(gi.majors) for _ in range(extra_n)]
+                als = [rand_allele(rng, gi, m) for m in majors]
+                for j in (0, 1):      # a novel functional variant on the head / the tail of the tandem
+                    m = rng.choice(gi.func)
+                    if list(m) not in als[j]["added"]:
+                        als[j]["added"].append(list(m))
+                    for disp in (True, False):
+                        cases.append({"stream": key + "-tandem-novel", "gene": key, "display": disp, "alleles": [dict(a, added=list(a["added"])) for a in als]})
     for mal in (False, True):
         for n, cnt in per_n.items():
             for _ in range(cnt if not mal else max(1, cnt // 2)):
